@@ -11,7 +11,7 @@ PRELUDE = "From Unimock Require Import Model.RunConc.\nOpen Scope N_scope.\n"
 def harness_line(case, cid):
     th = " ".join(f"{len(t)} " + " ".join(f"{m}:{a}" for (m, a) in t) if t else "0" for t in case["threads"])
     # shared: the threads use the original by reference instead of clones of it (the model does not distinguish: clones share everything)
-    return " ".join([f"case {cid}", ("partial" if case["partial"] else "strict") + ("S" if case.get("shared") else "") + ("R" if case.get("report") else ""), f"T {len(case['terms'])}"]
+    return " ".join([f"case {cid}", ("partial" if case["partial"] else "strict") + ("S" if case.get("shared") else "") + ("R" if case.get("report") else "") + ("F" if case.get("free") else ""), f"T {len(case['terms'])}"]
                     + [K.term_tok(t) for t in case["terms"]]
                     + [f"TH {len(case['threads'])}", th, f"S {len(case['sched'])}"] + [str(x) for x in case["sched"]])
 
